@@ -274,9 +274,11 @@ func c11Random(r *fw.Rand) ([]tcue, int64) {
 	if r.P(1, 6) {
 		texts = append(append([]string(nil), texts...), "") // cues without lines among the others
 	}
+	// the instants: from zero, hours into a long tape, or counted from the Unix epoch as the segments of a live stream are
+	base := fw.Pick(r, []int64{0, 0, 0, 0, 0, 40 * 3600e9, 2600*3600e9 + 7, 1790000000e9 + 1001})
 	cs := make([]tcue, n)
 	for i := range cs {
-		s := r.I64n(200) * unit
+		s := base + r.I64n(200)*unit
 		e := s + r.I64n(30)*unit
 		cs[i] = tcue{s, e, fw.Pick(r, texts)}
 	}
